@@ -3,6 +3,7 @@
 //! triangular::mul_inv_from_right_exact).
 //! Results: Result<_, _> is encoded as [ok v] | [err] | [err <variant>].
 use crate::term::*;
+use num::ToPrimitive;
 use number_theory_linear::subspace::{self, IIMError};
 use number_theory_linear::{determinant, matrix, solve_linear_system, triangular};
 
@@ -34,6 +35,12 @@ pub fn dispatch(op: &str, a: &[Term]) -> Option<Term> {
             Err(_) => err(),
         },
         "la_image" => timat(&subspace::image_mod_p(&a[0].imat(), &a[1].int())),
+        // the same generic routine instantiated at a fixed-width integer (entries in [0, p), p < 2^31: every product fits an i64)
+        "la_image_i64" => {
+            let m: Vec<Vec<i64>> = a[0].imat().iter().map(|r| r.iter().map(|x| x.to_i64().expect("harness: entry does not fit i64")).collect()).collect();
+            let r = subspace::image_mod_p::<i64>(&m, &a[1].i64());
+            tl(r.into_iter().map(|row| tl(row.into_iter().map(|x| ti(x)).collect())).collect())
+        }
         "la_mulinv" => match triangular::mul_inv_from_right_exact(&a[0].imat(), &a[1].imat()) {
             Ok(c) => ok(timat(&c)),
             Err(_) => err(),
